@@ -404,6 +404,38 @@ func exec(op string) string {
 		}
 		_, impl, _ := runCtl(label, append([]string{}, w[2:]...), nil)
 		return impl
+	case "evd":
+		if len(w) < 2 || w[1] != ":" {
+			return "bad-op"
+		}
+		_, impl, _ := runEvd(label, append([]string{}, w[2:]...), nil)
+		return impl
+	case "evdrace":
+		return "accept"
+	case "evdobs", "evdsess":
+		which := "node"
+		for _, x := range w {
+			if strings.HasPrefix(x, "which=") {
+				which = strings.TrimPrefix(x, "which=")
+			}
+			if strings.HasPrefix(x, "sched=") {
+				var acts []string
+				if x != "sched=-" {
+					acts = strings.Split(strings.TrimPrefix(x, "sched="), ",")
+				}
+				fresh := ""
+				if w[0] == "evdobs" {
+					_, _, fresh = runEvd(label, append([]string{}, acts...), nil)
+				} else {
+					fresh = runEvdSess(label, which, acts)
+				}
+				if evdMonitorsOf(fresh) == evdMonitorsOf(op) {
+					return "accept"
+				}
+				return "observed-now:" + strings.ReplaceAll(evdMonitorsOf(fresh), " ", ",")
+			}
+		}
+		return "bad-op"
 	case "retry":
 		n, fates := -1, ""
 		for _, x := range w[1:] {
@@ -763,6 +795,60 @@ func main() {
 			}
 		}
 		lap("retry")
+	}
+	// 9. the event debouncers: stop() / Session.Close against the flusher at each of its program points
+	{
+		nE, nS := 60*mult, 16*mult
+		type eres struct{ op, impl, obs string }
+		er := make([]eres, nE+nS)
+		eseeds := make([]uint64, nE+nS)
+		for i := range eseeds {
+			eseeds[i] = r.U64()
+		}
+		var ewg sync.WaitGroup
+		esem := make(chan struct{}, 8)
+		for i := range er {
+			ewg.Add(1)
+			esem <- struct{}{}
+			go func(i int) {
+				defer ewg.Done()
+				defer func() { <-esem }()
+				if atomic.LoadInt64(&failures) >= 2 {
+					return
+				}
+				if i < nE {
+					op, impl, obs := runEvd(fmt.Sprintf("e%d", i), nil, vh.NewRng(eseeds[i]))
+					er[i] = eres{op, impl, obs}
+				} else {
+					which := []string{"node", "schema"}[i%2]
+					er[i] = eres{obs: runEvdSess(fmt.Sprintf("es%d", i), which, genEvdActs(vh.NewRng(eseeds[i])))}
+				}
+			}(i)
+		}
+		ewg.Wait()
+		for i := range er {
+			if er[i].obs == "" {
+				continue
+			}
+			if strings.HasPrefix(er[i].obs, "fatal") {
+				fmt.Fprintln(os.Stderr, er[i].obs)
+				os.Exit(3)
+			}
+			cls := "stop-with-flusher-in-select"
+			if strings.Contains(er[i].obs, "hlock,stop,fire") || strings.Contains(er[i].obs, "hlock,fire,stop") || strings.Contains(er[i].obs, "fire,hlock,stop") {
+				cls = "stop-with-flusher-committed-to-timer-branch"
+			}
+			if i < nE {
+				out.Case(er[i].op, er[i].impl, "evd/"+cls, true)
+				out.Case(er[i].obs, "accept", "evdobs", true)
+			} else {
+				out.Case(er[i].obs, "accept", "evdsess/"+cls, true)
+			}
+		}
+		if atomic.LoadInt64(&failures) < 2 {
+			out.Case(evdRace("er", 300*mult, vh.NewRng(r.U64())), "accept", "evdrace", true)
+		}
+		lap("eventdebouncers")
 	}
 	// 1. debouncer stop races (the defect repaired by the fix commit must not come back). Run LAST: each round
 	// left a goroutine parked on a listener nobody served any more (refreshNow after stop) on a tree without the fix
